@@ -16,7 +16,7 @@ CLAUSES = {
 }
 BOUNDS = {
     "quick": "pre-state n<=3 particles, npid<=n+2, append m<=2 (scalar/array/default forms), arbitrary kill masks; sequences of 3 ops from empty",
-    "thorough": "pre-state n<=4, npid<=n+2, append m<=3; sequences of 5 ops from empty",
+    "thorough": "pre-state n<=4, npid<=n+2, append m<=3; sequences of 4 ops from empty",
 }
 ASSUMES = ["pre-state of the inductive step satisfies the representation invariant (pid strictly increasing, 0<=pid<npid, equal lengths)",
            "item assignment uses an array of unchanged length (documented precondition)"]
@@ -24,7 +24,7 @@ OUTSIDE = "array sizes beyond the bound; NaN defaults for variables without a va
 
 
 def scenarios(tier):
-    nmax, mmax, depth = (3, 2, 3) if tier == "quick" else (4, 3, 5)
+    nmax, mmax, depth = (3, 2, 3) if tier == "quick" else (4, 3, 4)
     out = []
     for n in range(0, nmax + 1):
         for op in ("append_scalar", "append_array", "append_default", "kill_compactify", "setitem", "bad_name", "bad_shape"):
